@@ -87,6 +87,9 @@ func (s *session) evalFrom(item FromItem, outer *scope, siblings []*binding) (*f
 		}
 		return single(b, t.rows), nil
 	case *SubqueryRef:
+		if x.Lateral {
+			return nil, unsupported("LATERAL")
+		}
 		res, err := s.execSelect(x.Sel, outer)
 		if err != nil {
 			return nil, err
@@ -272,6 +275,9 @@ func exprName(e Expr) string {
 
 // execCore evaluates one SELECT arm: FROM, WHERE, aggregates / select list, ORDER BY, OFFSET, LIMIT.
 func (s *session) execCore(sel *Select, outer *scope) (*resultSet, error) {
+	if sel.With != nil || sel.DistinctOn != nil || sel.GroupBy != nil { // phase-2 guard, removed once executed
+		return nil, unsupported("WITH / DISTINCT ON / GROUP BY")
+	}
 	q := &scope{outer: outer, queryLevel: true}
 	joined := [][][]Value{{}} // no FROM: a single empty row
 	for _, item := range sel.From {
